@@ -92,6 +92,8 @@ def gen_op(rng, addrs, nmax, p_bad):
         else:
             anchor = ["v", [rvec(rng) for _ in range(rng.choice([1, 2, 2, 3, 4]))]]
         form = rng.choice(FORMS) if rng.random() < 0.6 else "rotate"
+        if rng.random() < 0.12:  # rotation=None ("interpreted as unit rotation"): same path effects as an explicit identity
+            rot, form = ["s", ID], "none"
         return {"op": "rot", "addr": addr, "rot": rot, "anchor": anchor, "start": gen_start(rng, nmax), "form": form}
     if k < 0.82:
         n = rng.choice([1, 1, 2, 3, 4])
@@ -248,7 +250,10 @@ def call_rotate(obj, op):
     kw = {"anchor": anchor, "start": "auto" if op["start"] is None else op["start"]}
     form = op.get("form", "rotate")
     single = op["rot"][0] == "s"
-    if form == "rotate":
+    if form == "none":
+        assert op["rot"] == ["s", ID]
+        obj.rotate(None, **kw)
+    elif form == "rotate":
         obj.rotate(rot, **kw)
     elif form == "quat":
         obj.rotate_from_quat(rot.as_quat(), **kw)
